@@ -32,6 +32,7 @@ import (
 	"unsafe"
 
 	"github.com/IrineSistiana/bytespool"
+	"github.com/IrineSistiana/mosproxy/internal/verifhook"
 )
 
 const verifOn = true
@@ -205,6 +206,11 @@ func verifReport(r VerifReport) {
 }
 
 func verifGet(size int) Buffer {
+	if size >= 2048 {
+		// Delay point: widens "look something up, then copy it into a fresh
+		// buffer" windows (off unless configured, see package verifhook).
+		verifhook.Point("pool.get.large")
+	}
 	b := bytespool.Get(size)
 	verifGets.Add(1)
 	if c := cap(b); c > 0 && verifFill {
